@@ -96,9 +96,10 @@ def run(chk, repo, tier):
         chk.ob('C12.R5', where(repo, f2, f2.node), f'{f2.name} writes none of its arguments', not pw,
                '; '.join(f'{d} at {s}' for d, s in pw[:3]), key=f'C12.R5|{q}')
     split_tensor_rules(chk, repo, 'C12.R6')
+    from . import truncrule
+    truncrule.rule(chk, repo, 'C12.R8')
     chk.notes['idiom_counts'] = c
-    chk.undecided += ['which singular values are retained (> vs >=, ascending accumulation): stating it would restate the '
-                      'routine', 'the error identity and the tolerance bound', 'orthonormality of the factors']
+    chk.undecided += ['the error identity and the tolerance bound as numerical statements', 'orthonormality of the factors']
     return ('Frame / charge-tag typing of bond_ops.split_matrix_svd (sibling of qr), bond-leg restriction of the truncation, '
             'effects analysis of the three routines, leg-domain rules for split_mps_tensor in all three distributions.',
             'instances = as C11 plus restricted arrays, distributions x {ranks, gauge, merge, charges, label}')
